@@ -3,37 +3,17 @@ package main
 import (
 	"fmt"
 	"os"
-	"time"
 
 	"github.com/frankkopp/FrankyGo/internal/config"
+	"github.com/frankkopp/FrankyGo/internal/movegen"
 	"github.com/frankkopp/FrankyGo/internal/position"
-	"github.com/frankkopp/FrankyGo/internal/search"
 )
 
 func main() {
 	config.LogLevel = 0
-	config.SearchLogLevel = 0
-	fen := os.Args[1]
-	for mask := 0; mask < 8; mask++ {
-		config.Settings.Search.UseBook = false
-		config.Settings.Search.TTSize = 1
-		config.Settings.Search.UseQSStandpat = mask&1 == 0
-		config.Settings.Search.UseSEE = mask&2 == 0
-		config.Settings.Search.UseQFP = mask&4 == 0
-		s := search.NewSearch()
+	for _, fen := range os.Args[1:] {
 		p, _ := position.NewPositionFen(fen)
-		t0 := time.Now()
-		s.StartSearch(*p, search.Limits{Nodes: 187, Depth: 9})
-		done := make(chan bool)
-		go func() { s.WaitWhileSearching(); done <- true }()
-		select {
-		case <-done:
-			fmt.Println("mask", mask, "ended after", time.Since(t0), "nodes", s.NodesVisited())
-		case <-time.After(20 * time.Second):
-			fmt.Println("mask", mask, "STILL RUNNING after 20s nodes", s.NodesVisited())
-			s.StopSearch()
-			<-done
-			fmt.Println("   stopped after", time.Since(t0), "nodes", s.NodesVisited())
-		}
+		mg := movegen.NewMoveGen()
+		fmt.Println(fen, "legal:", mg.GenerateLegalMoves(p, movegen.GenAll).Len(), "HasLegalMove:", mg.HasLegalMove(p))
 	}
 }
